@@ -271,7 +271,7 @@ PROPS["C30"].update({
     "level_text": "Bounded model checking (Kani/CBMC): the segment shapes BulkLoader::build_segments emits (edge-free; one edge) satisfy "
                   "the same read-kernel obligations as compacted segments (no panic on any node id, incoming/outgoing exactly the "
                   "stored edges after persist); plus path-wise symbolic execution (z3) of the list construction in build_segments: "
-                  "every one of 1..3 input relationships (symbolic, possibly coinciding endpoints and types) reaches the segment builder, i.e. "
+                  "every one of 1..3 (thorough: ..6) input relationships (symbolic, possibly coinciding endpoints and types) reaches the segment builder, i.e. "
                   "parallel relationships stay a multiset as on the transactional path. Partial and thin.",
     "outside_claim": ["labels, properties, statistics, WAL manifest, query equality between bulk-loaded and transactional databases",
                       "build_segments after the sort (grouping into offsets): covered only through the segment shapes above"],
